@@ -631,6 +631,15 @@ theorem shutdown_follows_source (s : St) : shutdownViaSource s = step s .shutdow
       Bool.false_eq_true, if_false, Option.getD_some]
     congr 2
 
+theorem get_follows_source (s : St) (p n : Nat) : getViaSource s p n = step s (.get p n) := by
+  simp [getViaSource, step, Gen.getOps, runPrims, result, prim]
+
+/-- the constructor guard (`NumberCache.__init__` via `has`) -/
+theorem mk_follows_source (s : St) (p n : Nat) (d : Option Nat) (cls : Nat) (ks : List Bool) :
+    mkViaSource s p n d cls ks = step s (.mk p n d cls ks) := by
+  simp only [mkViaSource, step, mkCache, Gen.ctorOps, runPrims, List.foldl, prim, runPrimsHas, Gen.hasOps]
+  cases hl : lookup (p, n) s.ids <;> simp [hl]
+
 theorem tmShutdown_follows_source (s : St) : tmShutdownViaSource s = step s .tmShutdown := by
   unfold tmShutdownViaSource
   cases hr : s.running with
@@ -664,6 +673,40 @@ theorem fireAbort_follows_source (s : St) : fireAbortViaSource s = step s .fireA
   cases hr : s.running with
   | none => simp [step, hr]
   | some c => simp [step, hr, Gen.onTimeoutAbortOps, runPrims, prim]
+
+/-- THE SOURCE-INTERPRETED MACHINE IS THE MODEL.  `stepSrc` executes `mk` (constructor guard), `add`, `pop`, `get`,
+    `_on_timeout` (start, normal end, raising end), `clear`, `shutdown`, `shutdown_task_manager` from the op lists that
+    tools/gen_rc.py regenerates from requestcache.py on every run; it is the same function as `step`, hence every theorem
+    of this file holds for histories run through the regenerated lists. -/
+theorem stepSrc_eq_step (s : St) (e : Ev) : stepSrc s e = step s e := by
+  cases e <;> simp only [stepSrc, mk_follows_source, add_follows_source, pop_follows_source, get_follows_source,
+    fireBegin_follows_source, fireEnd_follows_source, fireAbort_follows_source, clear_follows_source,
+    shutdown_follows_source, tmShutdown_follows_source]
+
+theorem runSrc_eq_run (s : St) (evs : List Ev) : runSrc s evs = run s evs := by
+  induction evs generalizing s with
+  | nil => rfl
+  | cons e es ih => simp only [runSrc, run, stepSrc_eq_step, ih]
+
+/-- AT MOST ONCE / NO TIMEOUT AFTER A CLAIM, stated directly over the machine that executes the regenerated lists: if
+    the source loses the statement that makes them true (pop no longer cancels, `_on_timeout` keeps the identifier, the
+    guard of the constructor or of `add` disappears, …) the regenerated list changes and this theorem no longer
+    type-checks through `runSrc_eq_run`. -/
+theorem at_most_once_over_source (evs : List Ev) (c : Nat) :
+    (runSrc init evs).2.count (.claimed c) + (runSrc init evs).2.count (.timedOut c)
+      ≤ (runSrc init evs).2.count (.added c) := by
+  rw [runSrc_eq_run]; exact at_most_once evs c
+
+theorem unique_identity_over_source (evs : List Ev) (p n c : Nat)
+    (hout : lookup (p, n) (runSrc init evs).1.ids = some c) :
+    (∀ d cls ks, stepSrc (runSrc init evs).1 (.mk p n d cls ks) = ((runSrc init evs).1, .inUse))
+    ∧ (∀ c', ((runSrc init evs).1.caches c').ident = (p, n) →
+          (stepSrc (runSrc init evs).1 (.add c')).2 ≠ .added c') := by
+  rw [runSrc_eq_run] at hout ⊢
+  have h := unique_identity evs p n c hout
+  refine ⟨fun d cls ks => ?_, fun c' hid => ?_⟩
+  · rw [stepSrc_eq_step]; exact h.1 d cls ks
+  · rw [stepSrc_eq_step]; exact (h.2.1 c' hid).1
 
 /-! ### non-vacuity: concrete histories exercising the hypotheses -/
 
@@ -712,6 +755,10 @@ example : trace init [.mk 0 1 (some 250) 0 [false], .mk 0 2 (some 250) 0 [true],
        .droppedShutdown] := by decide
 example : ((final init [.mk 0 2 (some 250) 0 [true], .add 0, .tmShutdown]).caches 0).futs.map (·.st)
     = [.cancelled] := by decide
+/-- the source-interpreted machine on a concrete history (same replies as `trace`) -/
+example : (runSrc init [.mk 0 1 (some 250) 0 [], .add 0, .mk 0 1 none 0 [], .get 0 1, .pop 0 1, .tick 250,
+                        .fireBegin 0]).2
+    = [.okMk 0 1, .added 0, .inUse, .got (some 0), .claimed 0, .overdue [], .refused] := by decide
 /-- clear drops an outstanding request: its timer never fires, a late pop finds nothing -/
 example : trace init [.mk 0 1 (some 1000) 0 [false], .add 0, .clear, .tick 1000, .fireBegin 0, .pop 0 1]
     = [.okMk 0 1, .added 0, .done, .overdue [], .refused, .keyError] := by decide
